@@ -397,7 +397,9 @@ func (t Term) ToDatalog(syms *datalog.SymbolTable) datalog.Term {
 	case 'o':
 		return datalog.Bool(t.O)
 	case 'S':
-		s := make(datalog.Set, 0, len(t.Set))
+		// spare capacity on purpose: an operator that appends to an operand in place (instead
+		// of building a fresh result) then writes into storage shared with other uses of it
+		s := make(datalog.Set, 0, len(t.Set)+3)
 		for _, e := range t.Set {
 			s = append(s, e.ToDatalog(syms))
 		}
